@@ -96,6 +96,34 @@ def top_shapes(spec):
         yield Prog("test.c", L), "shape:c"
 
 
+def large_shapes(spec):
+    """headerless files of more than a thousand statements in which a diagnostic depends on a statement far back:
+    a function right after a run of N comment lines that follows a global / a function (no empty line), a comment in a
+    function of N statements, a header whose guard comes N comment lines after a declaration"""
+    from nv.gen.ir import TAB, Prog
+    r = random.Random("c19L/%s/%d" % (spec["seed"], spec["shard"]))
+    if spec["shard"] % 4 != 3 and spec.get("n", 0) < 100:
+        return
+    fn = [Line("fhead", [("int", "type"), TAB(1), ("ft_far", "id:func"), ("(", "punct"), ("int", "type"), SP, ("a", "id:param"), (")", "punct")], 0, 0),
+          Line("fopen", [("{", "punct")], 0, 0),
+          Line("stmt", [IND(1), ("return", "kw"), SP, ("(", "punct"), ("a", "id:var"), (")", "punct"), (";", "punct")], 1, 0),
+          Line("fclose", [("}", "punct")], 0, 0)]
+    for n in (500, 511, 1009, 1015, 1022, 1030, 1100, 2100):
+        pad = [Line("comment", [("// pad %d" % i, "comment:line")]) for i in range(n)]
+        first = r.choice([[Line("global", [("int\tg_a;", "raw")])], [Line("proto", [("int\tft_p(void);", "raw")])],
+                          [l.copy() for l in fn] + []])
+        if first and first[0].kind == "fhead":
+            first[0].segs[2] = ("ft_near", "id:func")
+        yield Prog("test.c", first + pad + [l.copy() for l in fn]), "large:c"
+        # a comment inside a long function, in a braceless if
+        body = [Line("stmt", [IND(1), ("a", "id:var"), SP, ("+=", "op:assign"), SP, (str(i % 9), "const:int"), (";", "punct")], 1, 0)
+                for i in range(n)]
+        tailc = [Line("ctrl", [IND(1), ("if", "kw"), SP, ("(", "punct"), ("a", "id:var"), (")", "punct")], 1, 0, kw="if"),
+                 Line("comment", [IND(2), ("/* far */", "comment:block")], 2, 0),
+                 Line("stmt", [IND(2), ("a", "id:var"), ("++", "op:incdec"), (";", "punct")], 2, 0)]
+        yield Prog("test.c", fn[:2] + body + tailc + fn[2:]), "large:c"
+
+
 def extra_variants(spec):
     """violating families outside the C02 catalogue that change how later text is scoped: a type defined in
     a .c file after a function, with its brace on the keyword line or on its own line"""
@@ -143,7 +171,7 @@ def run_shard(spec):
     import itertools
     header_only = "\n".join(l.text() for l in conf.Gen("h").header_lines("pred.c")) + "\n"
     for p, tag in itertools.chain(relwork.corpus(spec, header=False, nvar=4, force=("V71a",)), small_programs(spec),
-                                  extra_variants(spec), top_shapes(spec)):
+                                  extra_variants(spec), top_shapes(spec), large_shapes(spec)):
         if r.random() < 0.2:
             # another file analysed just before in the same process (a header-only file, a comment-only file, nothing)
             pk = r.choice(["header_only", "comment_only", "empty"])
@@ -173,6 +201,9 @@ def run_shard(spec):
         # (2) comment lines
         pts = [i for i, l in enumerate(p.lines) if i > 0 and p.lines[i - 1].kind == "blank"
                and l.kind in ("fhead", "proto", "global", "td_head")]
+        if tag.startswith("large"):
+            pts = [i for i in (1, len(p.lines) // 2) if p.lines[i].kind in ("comment", "fhead", "global", "proto") and p.lines[i].depth == 0
+                   and p.lines[i].func in (-1, 0) and not any(l.kind == "fopen" for l in p.lines[:i])]
         for i in pts:
             q = p.copy()
             c = r.choice([("/* note */", "comment:block"), ("// note", "comment:line")])
